@@ -98,7 +98,10 @@ func hasNullAlt(t octosql.Type) bool {
 
 func c10PairProp(r *ev.Rec) func(c c10Pair) ev.Outcome {
 	return func(c c10Pair) ev.Outcome {
-		a, b := c.A.Oct(), c.B.Oct()
+		// the operands get slices with spare capacity (as unions grown by successive TypeSum calls have): an operation that
+		// appends to an argument's slice instead of copying it then shows, as a changed argument or a corrupted earlier result
+		a, b := withSpareCapacity(c.A.Oct()), withSpareCapacity(c.B.Oct())
+		a0, b0 := a.String(), b.String()
 		o := ev.Outcome{NonTrivial: a.TypeID != b.TypeID || isComposite(a) || isComposite(b)}
 		if isComposite(a) || isComposite(b) {
 			o.Classes = append(o.Classes, "pair_with_composite")
@@ -179,11 +182,48 @@ func c10PairProp(r *ev.Rec) func(c c10Pair) ev.Outcome {
 				return ev.Fail("NonNullable changed a type without NULL: %s -> %s", t, nn)
 			}
 		}
+		// nothing above may have modified its arguments, and the first sum must still be what it was
+		if a.String() != a0 || b.String() != b0 {
+			return ev.Fail("an operation modified its argument: a was %s and is %s, b was %s and is %s", a0, a, b0, b)
+		}
+		if s3 := octosql.TypeSum(a, b); s3.String() != s.String() && !shapes {
+			return ev.Fail("TypeSum(%s,%s) gave %s first and %s later (an earlier result shares memory with an argument)", a, b, s, s3)
+		}
 		if knownHit {
 			o.Excluded = "typesum-positional"
 		}
 		return o
 	}
+}
+
+// withSpareCapacity rebuilds t with slices that have room to grow (cap > len), recursively.
+func withSpareCapacity(t octosql.Type) octosql.Type {
+	switch t.TypeID {
+	case octosql.TypeIDUnion:
+		alts := make([]octosql.Type, 0, len(t.Union.Alternatives)+3)
+		for _, x := range t.Union.Alternatives {
+			alts = append(alts, withSpareCapacity(x))
+		}
+		t.Union.Alternatives = alts
+	case octosql.TypeIDList:
+		if t.List.Element != nil {
+			e := withSpareCapacity(*t.List.Element)
+			t.List.Element = &e
+		}
+	case octosql.TypeIDStruct:
+		fields := make([]octosql.StructField, 0, len(t.Struct.Fields)+3)
+		for _, f := range t.Struct.Fields {
+			fields = append(fields, octosql.StructField{Name: f.Name, Type: withSpareCapacity(f.Type)})
+		}
+		t.Struct.Fields = fields
+	case octosql.TypeIDTuple:
+		elems := make([]octosql.Type, 0, len(t.Tuple.Elements)+3)
+		for _, x := range t.Tuple.Elements {
+			elems = append(elems, withSpareCapacity(x))
+		}
+		t.Tuple.Elements = elems
+	}
+	return t
 }
 
 type c10Val struct {
@@ -386,7 +426,7 @@ func c10UnorderedProp(c c10Alts) ev.Outcome {
 func TestC10(t *testing.T) {
 	r := ev.New("C10", "exploration",
 		"pairs: every ordered pair of the enumerated types with <=3 nodes (exhaustive part) plus rapid pairs of nested normal-form types (depth<=3); "+
-			"values: rapid values nested to depth 3 checked against their own Type(). Laws: Is reflexive; TypeSum upper bound, commutative, idempotent (up to Equals); "+
+			"values: rapid values nested to depth 3 checked against their own Type(). Operands are built with spare slice capacity and must come back unmodified (and the first TypeSum must be reproducible afterwards). Laws: Is reflexive; TypeSum upper bound, commutative, idempotent (up to Equals); "+
 			"TypeIntersection contained in both; NonNullable removes exactly NULL (NonNullable(NULL)=NULL is documented and skipped). "+
 			"unordered_unions: unions given by their alternatives in any order (all ordered selections of 2 and 3 distinct-TypeID alternatives from a pool of 16 types, complete; rapid selections of 2-6): Is reflexive, NonNullable leaves no NULL, keeps every other alternative, invents nothing and does not modify its argument (non-trivial: not sorted and has NULL). "+
 			"non-trivial pair: different TypeIDs or a composite (list/struct/tuple/union) on either side; non-trivial value: composite. distinct = canonical JSON of the case",
